@@ -160,6 +160,11 @@ int uv_thread_create_ex(uv_thread_t* tid,
     stack_size = uv__thread_stack_size();
   } else {
     pagesize = (size_t)getpagesize();
+    /* A size within a page of SIZE_MAX cannot be rounded up (the sum below
+     * would wrap around to a tiny stack) and cannot be satisfied either.
+     */
+    if (stack_size > SIZE_MAX - (pagesize - 1))
+      return UV_EINVAL;
     /* Round up to the nearest page boundary. */
     stack_size = (stack_size + pagesize - 1) &~ (pagesize - 1);
     min_stack_size = uv__min_stack_size();
